@@ -25,8 +25,10 @@ type (
 )
 
 func (ds *dataStore) save(fileName string) (err error) {
-	// open output file
-	f, err := os.Create(fileName)
+	// write a new file next to the old one and move it into place when it is complete, so that
+	// a save that is interrupted leaves the previous snapshot intact
+	tmpName := fileName + ".tmp"
+	f, err := os.Create(tmpName)
 	if err != nil {
 		return
 	}
@@ -35,6 +37,11 @@ func (ds *dataStore) save(fileName string) (err error) {
 	defer func() {
 		if err := f.Close(); err != nil {
 			panic(err)
+		}
+		if err == nil {
+			err = os.Rename(tmpName, fileName)
+		} else {
+			os.Remove(tmpName)
 		}
 	}()
 
